@@ -257,6 +257,28 @@ func runExposure(c *run.Ctx, prop string) {
 		}
 		w.AddFeature("reorderedExpressions")
 	}
+	// "all pods of the namespaces matching S" written once WITHOUT podSelector and once with an explicit empty one, in two rules with
+	// different ports (added after the spellings are unified on purpose)
+	if g.P(0.15) && len(w.Workloads) > 0 {
+		x := rng.Pick(g, w.Workloads)
+		nsSel := &world.Sel{ML: map[string]string{rng.Pick(g, world.Keys): rng.Pick(g, world.Vals)}}
+		ingress := g.P(0.5)
+		peers := []world.NPPeer{{NsSel: nsSel}, {NsSel: nsSel, PodSel: &world.Sel{}}}
+		if g.P(0.3) {
+			peers[0], peers[1] = peers[1], peers[0]
+		}
+		for i, peer := range peers {
+			np := world.NetPol{Ns: x.Ns, Name: fmt.Sprintf("allpods%d", i), PodSel: *world.SelFor(g, x.Labels), HasTypes: true}
+			rule := world.NPRule{Peers: []world.NPPeer{peer}, Ports: []world.NPPort{{Port: []int{8080, 9090}[i]}}}
+			if ingress {
+				np.Ingress, np.PolicyTypes = []world.NPRule{rule}, []string{"Ingress"}
+			} else {
+				np.Egress, np.PolicyTypes = []world.NPRule{rule}, []string{"Egress"}
+			}
+			w.NetPols = append(w.NetPols, np)
+		}
+		w.AddFeature("allPodsWithAndWithoutPodSelector")
+	}
 	// an egress rule towards specific selectors on a NAMED port next to an entire-cluster egress rule on a number - the number the
 	// workload ITSELF declares under that name: the name belongs to the (hypothetical) destination, which may declare it elsewhere
 	if g.P(0.15) && len(w.Workloads) > 0 {
